@@ -1628,7 +1628,11 @@ theorem callerOk_of_facts {g : Nat} (cs : Case) (hret : (s.callers g).sub = .ret
     exact this
   unfold callerOk callerChecks
   simp only [List.all_cons, List.all_nil, Bool.and_true, Bool.and_eq_true]
-  refine ⟨by simp [e_ret, hret], ?_, ?_, ?_, ?_, ?_, ?_, ?_, ?_, ?_⟩
+  have e_pan : (observeCaller cfg s g).panicked =
+      ((s.started.filter (isGrp g)).filter cfg.panics).map (·.idx) := rfl
+  have e_err : (observeCaller cfg s g).errDelivered =
+      (((s.delivered.filter (isGrp g)).filter (fun j => s.started.contains j)).filter cfg.panics).map (·.idx) := rfl
+  refine ⟨by simp [e_ret, hret], ?_, ?_, ?_, ?_, ?_, ?_, ?_, ?_, ?_, ?_⟩
   · -- identified results pairwise distinct
     apply decide_eq_true
     rw [e_del]
@@ -1695,6 +1699,35 @@ theorem callerOk_of_facts {g : Nat} (cs : Case) (hret : (s.callers g).sub = .ret
     | true =>
       simp only [Bool.not_true, Bool.false_or]
       apply decide_eq_true; rw [e_anon]; exact hanon0 (hns hnn)
+  · -- the error result of a recovered panic: delivered for exactly the jobs that panicked
+    refine ⟨⟨?_, ?_⟩, ?_⟩
+    · rw [List.all_eq_true]
+      intro i hi
+      rw [e_pan] at hi
+      obtain ⟨a, ha, rfl⟩ := List.mem_map.mp hi
+      have h0 := List.mem_filter.mp ha
+      have h1 := List.mem_filter.mp h0.1
+      have hag : a.grp = g := by simpa [isGrp] using h1.2
+      have h2 := F.acc_del a (F.st_acc a h1.1) hag
+      rw [List.contains_iff_mem, e_err]
+      refine List.mem_map.mpr ⟨a, ?_, rfl⟩
+      exact List.mem_filter.mpr ⟨List.mem_filter.mpr ⟨List.mem_filter.mpr ⟨h2, h1.2⟩, by simpa using h1.1⟩, h0.2⟩
+    · rw [List.all_eq_true]
+      intro i hi
+      rw [e_err] at hi
+      obtain ⟨a, ha, rfl⟩ := List.mem_map.mp hi
+      have h0 := List.mem_filter.mp ha
+      have h1 := List.mem_filter.mp h0.1
+      have h2 : a ∈ s.started := by simpa using h1.2
+      have h3 := (List.mem_filter.mp h1.1).2
+      rw [List.contains_iff_mem, e_pan]
+      exact List.mem_map.mpr ⟨a, List.mem_filter.mpr ⟨List.mem_filter.mpr ⟨h2, h3⟩, h0.2⟩, rfl⟩
+    · rw [List.all_eq_true]
+      intro i hi
+      rw [e_err] at hi
+      obtain ⟨a, ha, rfl⟩ := List.mem_map.mp hi
+      rw [List.contains_iff_mem, e_del]
+      exact List.mem_map.mpr ⟨a, (List.mem_filter.mp ha).1, rfl⟩
 
 theorem spec_of_final_aux (hfix : cfg.fixed = true) (hmax : 1 ≤ cfg.maxWorkers)
     (h : Reach cfg s) (hq : ¬ CanStep cfg s) (hst : s.stopped = true) (mc : Nat) (hmc : mc ≤ cfg.maxWorkers) :
